@@ -86,6 +86,11 @@ CHECKS = {
          "The shadow client behaves like a real peer (acknowledges the listener's FIN once it has seen it). Every emitted frame is decoded independently; every connection's event is compared with the bytes sent.",
          "Frames are read from the transmit ring, not the wire; server ISN is whatever the implementation draws. Five design-level deviations are recorded as known findings (see known_findings.jsonl).",
          "DESIGN.md §5 C14"),
+ "C07": ("fault_enumeration",
+         "runtime monitoring: the real rotating writer driven directly over all sequences of up to 4/6 single-line writes with boundary line lengths (exhaustive for max size 1024) and seeded multi-line batches for three max sizes, with the log file renamed/removed externally before each write position; the real FileBackend end to end with bursts from 1/4/32 goroutines and unopenable destinations; offline oracle over the files on disk after quiescence: multiset of stamped lines, every line parses, per-file size rule, Send completion under a watchdog",
+         "What is judged is what is on disk after the flush interval: every accepted stamp exactly once as a parseable line in the log file or a rotated predecessor, no file above the maximum size unless it is a single line, no Send stuck.",
+         "Fault space = external rename/remove before any write of a sequence, destination missing/unusable before the writer starts. ENOSPC/EIO mid-write and power loss are not injected.",
+         "DESIGN.md §5 C07"),
 }
 
 NOT_YET = {
